@@ -1037,8 +1037,8 @@ func (bits permission) String() string {
 	return string(perms)
 }
 
-func getFiletype(filetype string) (filetype, error) {
-	switch strings.ToLower(filetype) {
+func getFiletype(name string) (filetype, error) {
+	switch strings.ToLower(name) {
 	case "file":
 		return fileFiletype, nil
 	case "dir":
@@ -1054,7 +1054,11 @@ func getFiletype(filetype string) (filetype, error) {
 	case "fifo":
 		return fifoFiletype, nil
 	default:
-		return 0, fmt.Errorf("invalid filetype '%v'", filetype)
+		// ToCommandLine lists the numeric value unless IDs are resolved.
+		if v, err := strconv.ParseUint(name, 0, 32); err == nil {
+			return filetype(v), nil
+		}
+		return 0, fmt.Errorf("invalid filetype '%v'", name)
 	}
 }
 
